@@ -78,6 +78,30 @@ func FlowProgram(r R, withDisruptive bool) (*sl.Program, []string) {
 			p.Items = append(p.Items, sl.Item{Marker: Pick(r, markers)})
 		}
 	}
+	// Whether a SecMarker counts as one of the "next N rules" of skip:N is not settled by the statement, and the
+	// model flags a marker inside a skip window as ambiguous. Most programs therefore shorten a skip count so
+	// that its window ends before the next marker (the remaining programs keep the overlap; they still feed the
+	// invariant monitors).
+	if Chance(r, 0.8) {
+		for i, it := range p.Items {
+			if it.Rule == nil || it.Rule.Skip == 0 {
+				continue
+			}
+			room, marker := 0, false
+			for _, nx := range p.Items[i+1:] {
+				if nx.Marker != "" {
+					marker = true
+					break
+				}
+				if nx.Rule != nil && nx.Rule.Phase == it.Rule.Phase {
+					room++
+				}
+			}
+			if marker && it.Rule.Skip > room {
+				it.Rule.Skip = room
+			}
+		}
+	}
 	// closing probes: an always-firing rule at the end of every phase shows whether evaluation reached the end
 	for ph := 1; ph <= 5; ph++ {
 		p.Items = append(p.Items, sl.Item{Rule: &sl.Rule{ID: 900 + ph, Phase: ph, Severity: -1, Setvars: []sl.Setvar{{Key: fmt.Sprintf("end%d", ph), Kind: "=", Val: "1"}}}})
